@@ -2167,8 +2167,11 @@ impl<'a> Sem<'a> {
     /// Generates a program: 0..2 header files (included first, in order) and the root.
     pub fn generate(mut self, statements: usize) -> Program {
         let headers = self.rng.below(3);
+        // now and then the headers live in a subdirectory: the root names them with the directory, a
+        // header names its sibling without (includes resolve relative to the including file)
+        let subdir = self.rng.chance(1, 4) && self.on("headers-in-subdirectory");
         for h in 0..headers {
-            let name = format!("h{h}.td");
+            let name = if subdir { format!("sub/h{h}.td") } else { format!("h{h}.td") };
             self.p.files.push((name.clone(), String::new()));
             self.cur = 0;
             self.w(&format!("include \"{name}\"\n"));
